@@ -28,6 +28,7 @@ import (
 	"strconv"
 	"strings"
 	"sync"
+	"sync/atomic"
 	"time"
 
 	"github.com/redis/rueidis"
@@ -57,7 +58,7 @@ const (
 )
 
 type step struct {
-	Op string `json:"op"` // acq rel fail failacq holddel park cut xdel xset tryloop expire cancel sleep
+	Op string `json:"op"` // acq rel fail failacq holddel slowext park cut xdel xset tryloop expire cancel sleep
 	H  int    `json:"h"`
 	K  int    `json:"k"`
 	M  string `json:"m"` // acq: with|try|force ; fail: err|cut
@@ -86,10 +87,11 @@ type tokRec struct {
 }
 
 type fault struct {
-	kind string // err cut holddel park
-	h, k int
-	ms   int
-	used bool
+	kind   string // err cut holddel park slowext (slowext stays armed: every extend of the locker is answered ms late)
+	h, k   int
+	ms     int
+	used   bool
+	logged bool // slowext: the Fault record was written
 }
 
 type proc struct {
@@ -116,7 +118,8 @@ type pendScript struct {
 	live            string
 	rep             fakeredis.Value
 	hasRep          bool
-	expInside       int  // how often the key expired while the command ran
+	expInside       int // how often the key expired while the command ran
+	x, tr, te       int // expiry argument, arrival and execution time (ms since the start of the scenario), -1 = none
 }
 
 type world struct {
@@ -130,6 +133,7 @@ type world struct {
 
 	mu       sync.Mutex
 	shaKind  map[string]string
+	shaAbs   map[string]bool
 	toks     map[string]*tokRec
 	tokList  []*tokRec
 	faults   []*fault
@@ -141,6 +145,9 @@ type world struct {
 	connName map[int]int
 	unbound  int
 	idem     map[int]map[string]bool // per key: state-preserving events already logged since the key last changed
+	pushed   map[[2]int]bool         // (locker, key): an invalidation push was already logged
+	holding  map[int]bool            // connection: replies are being held by a slowext fault
+	beats    atomic.Int64            // 50 ms heartbeats of the driver process
 }
 
 func keyOf(k int) string { return prefix + ":" + strconv.Itoa(k) + ":" + lockName }
@@ -165,6 +172,11 @@ func (w *world) now() int { return int(time.Since(w.t0) / time.Millisecond) }
 
 // log writes one trace record; all records carry the same field set (TLC rejects access to a missing field).
 func (w *world) log(ev string, h, tok, k int, res, live string, o []int) {
+	w.logx(ev, h, tok, k, res, live, o, -1, -1, -1)
+}
+
+// logx: x = the expiry argument of a script, tr / te = when it arrived / executed (ms since the start of the scenario).
+func (w *world) logx(ev string, h, tok, k int, res, live string, o []int, x, tr, te int) {
 	if o == nil {
 		o = []int{}
 	}
@@ -174,7 +186,7 @@ func (w *world) log(ev string, h, tok, k int, res, live string, o []int) {
 		// waiters it wakes would otherwise fill the trace with thousands of identical lines
 		idem := (ev == "Ext" && res == "ok") || (ev == "Acq" && res == "no") || (ev == "Del" && res == "no")
 		if idem {
-			sig := fmt.Sprintf("%s/%d/%s", ev, tok, res)
+			sig := fmt.Sprintf("%s/%d/%s/%d", ev, tok, res, x) // an extend with a new expiry is always logged
 			if ev == "Acq" {
 				sig = "Acq/no/" + strconv.Itoa(h)
 			}
@@ -189,7 +201,7 @@ func (w *world) log(ev string, h, tok, k int, res, live string, o []int) {
 			w.idem[k] = nil
 		}
 	}
-	w.tr.Log(ev, "h", h, "tok", tok, "k", k, "res", res, "live", live, "o", o, "t", w.now())
+	w.tr.Log(ev, "h", h, "tok", tok, "k", k, "res", res, "live", live, "o", o, "t", w.now(), "x", x, "tr", tr, "te", te, "b", int(w.beats.Load()))
 }
 
 // classify tells what a lock script does from its text (the text itself is the library's).
@@ -205,6 +217,11 @@ func classify(src string) string {
 		return "frc"
 	}
 	return ""
+}
+
+// absExpiry: the script's second argument is an absolute expiry in Unix milliseconds.
+func absExpiry(src string) bool {
+	return strings.Contains(src, `"PXAT"`) || strings.Contains(src, `"PEXPIREAT"`)
 }
 
 func (w *world) lockerOfConn(c *fakeredis.Conn) int {
@@ -259,6 +276,7 @@ func (w *world) intercept(c *fakeredis.Conn, argv []string) (fakeredis.Value, fa
 		sha = hex.EncodeToString(sum[:])
 		if _, ok := w.shaKind[sha]; !ok {
 			w.shaKind[sha] = classify(argv[1])
+			w.shaAbs[sha] = absExpiry(argv[1])
 		}
 	}
 	kind := w.shaKind[sha]
@@ -294,14 +312,41 @@ func (w *world) intercept(c *fakeredis.Conn, argv []string) (fakeredis.Value, fa
 				time.Sleep(time.Duration(ms) * time.Millisecond)
 				c.HoldReplies(false)
 			}()
+		case kind == "ext" && f.kind == "slowext":
+			// the round trip of every extend of this locker takes ms longer: replies are held (the script itself runs
+			// at once); scripts that arrive while the connection is held share the release
+			if !f.logged {
+				f.logged = true
+				w.fired++
+				w.log("Fault", h, 0, -1, "slowext", "na", nil)
+			}
+			if id := c.ID(); !w.holding[id] {
+				w.holding[id] = true
+				ms := f.ms
+				c.HoldReplies(true)
+				go func() {
+					time.Sleep(time.Duration(ms) * time.Millisecond)
+					w.mu.Lock()
+					w.holding[id] = false
+					w.mu.Unlock()
+					c.HoldReplies(false)
+				}()
+			}
 		}
 	}
+	x := -1
+	if w.shaAbs[sha] {
+		if v, err := strconv.ParseInt(argv[5], 10, 64); err == nil {
+			x = int(v - w.t0.UnixMilli())
+		}
+	}
+	tr := w.now()
 	// expire what is due now, so that the expiry is logged before the script that observes it
 	w.mu.Unlock()
 	w.srv.ExpireNow()
 	pv, _, pok := w.srv.PeekRaw(argv[3])
 	w.mu.Lock()
-	w.pre[c.ID()] = &pendScript{key: argv[3], conn: c.ID(), kind: kind, h: h, k: k, tok: tok, preVal: pv, preOK: pok}
+	w.pre[c.ID()] = &pendScript{key: argv[3], conn: c.ID(), kind: kind, h: h, k: k, tok: tok, preVal: pv, preOK: pok, x: x, tr: tr, te: -1}
 	return fakeredis.Value{}, fakeredis.Pass
 }
 
@@ -324,7 +369,7 @@ func (w *world) flushPend() {
 			w.log("XDel", 0, 0, p.k, "ok", "na", nil)
 		}
 	case "acq", "frc":
-		before := p.expInside > 0 && p.preOK // the old value expired under the script's eyes: it found the key absent
+		before := p.expInside > 0 && p.preOK                      // the old value expired under the script's eyes: it found the key absent
 		after := (p.expInside > 0 && !p.preOK) || p.expInside > 1 // the script stored the key with a deadline already over
 		pre := p.preOK && !before
 		eff := (after || (p.postOK && p.postVal == p.tok.val)) && (p.kind == "frc" || !pre)
@@ -342,11 +387,14 @@ func (w *world) flushPend() {
 		if p.kind == "frc" {
 			name = "Frc"
 		}
-		if before {
+		// a refusal although the old value expired while the script ran: the SET NX still saw it, the expiry came with
+		// the script's GET, i.e. after the refusal
+		late := before && res == "no"
+		if before && !late {
 			expire()
 		}
-		w.log(name, p.h, p.tok.id, p.k, res, "na", nil)
-		if after {
+		w.logx(name, p.h, p.tok.id, p.k, res, "na", nil, p.x, p.tr, p.te)
+		if after || late {
 			expire()
 		}
 	case "ext":
@@ -362,7 +410,7 @@ func (w *world) flushPend() {
 		} else if p.expInside > 0 {
 			expire() // the script found the key expired
 		}
-		w.log("Ext", p.h, p.tok.id, p.k, res, "na", nil)
+		w.logx("Ext", p.h, p.tok.id, p.k, res, "na", nil, p.x, p.tr, p.te)
 		if said && (p.expInside > 0 || !p.postOK) {
 			// extended to a deadline that was (nearly) over: the key is gone again, the holder did not extend in time
 			expire()
@@ -409,6 +457,16 @@ func (w *world) sink(ev fakeredis.Event) {
 		w.flushPend()
 	}
 	switch ev.Kind {
+	case fakeredis.SPush:
+		// an invalidation queued for a locker's connection: the first one per (locker, key) is logged
+		if h := w.connName[ev.Conn]; h != 0 && ev.Reply.Typ == fakeredis.TPush && len(ev.Reply.Arr) == 2 && ev.Reply.Arr[0].Str == "invalidate" {
+			for _, kv := range ev.Reply.Arr[1].Arr {
+				if k := keyIndex(kv.Str); k >= 0 && !w.pushed[[2]int{h, k}] {
+					w.pushed[[2]int{h, k}] = true
+					w.tr.Log("Push", "h", h, "tok", 0, "k", k, "res", "ok", "live", "na", "o", []int{}, "t", w.now(), "x", -1, "tr", -1, "te", -1, "b", int(w.beats.Load()))
+				}
+			}
+		}
 	case fakeredis.SExpire:
 		if p := w.pend; p != nil && p.key == ev.Argv[0] {
 			p.expInside++ // logged together with the command, in the order the command saw it
@@ -460,6 +518,7 @@ func (w *world) sink(ev fakeredis.Event) {
 		pv, _, pok := w.srv.PeekRaw(ev.Argv[3])
 		w.mu.Lock()
 		p.postVal, p.postOK = pv, pok
+		p.te = w.now()
 		p.live = "unk"
 		if p.kind == "del" && p.tok.ctx != nil {
 			// the DEL has taken effect; a context that is still live now was live when the key was released
@@ -644,7 +703,8 @@ func (w *world) keysFree() bool {
 
 func runScenario(sc *scenario, rep *vh.Report, rng *rand.Rand) []map[string]any {
 	w := &world{sc: sc, tr: &vh.Tracer{}, rep: rep, shaKind: map[string]string{}, toks: map[string]*tokRec{},
-		pre: map[int]*pendScript{}, connName: map[int]int{}, idem: map[int]map[string]bool{}}
+		pre: map[int]*pendScript{}, connName: map[int]int{}, idem: map[int]map[string]bool{}, shaAbs: map[string]bool{},
+		pushed: map[[2]int]bool{}, holding: map[int]bool{}}
 	w.srv = fakeredis.NewServer("s", fakeredis.Options{})
 	w.net = fakeredis.NewNetwork()
 	w.net.Add(addr, w.srv)
@@ -652,7 +712,20 @@ func runScenario(sc *scenario, rep *vh.Report, rng *rand.Rand) []map[string]any 
 	w.srv.SetIntercept(w.intercept)
 	w.srv.SetEventSink(w.sink)
 	w.lockers = make([]rueidislock.Locker, sc.Lockers+1)
-	w.tr.Log("RESET", "h", sc.Lockers, "tok", 0, "k", -1, "res", sc.ID, "live", "na", "o", []int{}, "t", 0)
+	w.tr.Log("RESET", "h", sc.Lockers, "tok", 0, "k", -1, "res", sc.ID, "live", "na", "o", []int{}, "t", 0, "x", -1, "tr", -1, "te", -1, "b", 0)
+	// heartbeat of this process: deadlines on the library's reaction are counted in beats as well as in milliseconds
+	stopBeat := make(chan struct{})
+	defer close(stopBeat)
+	go func() {
+		for {
+			select {
+			case <-stopBeat:
+				return
+			case <-time.After(50 * time.Millisecond):
+				w.beats.Add(1)
+			}
+		}
+	}()
 	for h := 1; h <= sc.Lockers; h++ {
 		l, err := w.newLocker(h)
 		if err != nil {
@@ -698,6 +771,12 @@ func runScenario(sc *scenario, rep *vh.Report, rng *rand.Rand) []map[string]any 
 				ms = 150
 			}
 			w.arm(&fault{kind: "holddel", h: st.H, ms: ms})
+		case "slowext": // from now on every extend of locker h is answered ms late
+			ms := st.Ms
+			if ms == 0 {
+				ms = 40
+			}
+			w.arm(&fault{kind: "slowext", h: st.H, ms: ms})
 		case "park":
 			ms := st.Ms
 			if ms == 0 {
